@@ -10,7 +10,7 @@ from . import common
 
 PROP = "C08"
 KQ = ("NL", "CE", "J", "CEG")
-KT = KQ + ('NLI', 'W0', 'CO')
+KT = KQ + ('NLI', 'CO')
 _SKIP = (parser.whitespace, parser.carriage_return, parser.blank_line)
 
 
